@@ -39,7 +39,8 @@ func streamSize(evs []model.Event) int {
 // parseAll parses a complete document with the codec's one-shot Parse.
 func parseAll(cd *Codec, b []byte) (*model.Recorder, Result) {
 	rec := model.NewRecorder()
-	res := guard(int64(20000+400*len(b)), func() error { return cd.Parse(b, rec) })
+	in := exact(b)
+	res := guard(int64(20000+400*len(b)), func() error { return cd.Parse(in, rec) })
 	return rec, res
 }
 
